@@ -265,7 +265,7 @@ fn c15_tree_insert_2leaf() {
     core::mem::forget(out);
 }
 
-//@ {"p":"C15","tier":"experimental","clause":"SpanningTree::insert into an arbitrary valid 2-leaf queue never panics (every split point handed to the children lies inside the child it is handed to) and the resulting tree spans exactly the hull of the queue and the inserted range","bounds":"2-leaf tree with symbolic split and priorities, inserted range symbolic; u32 heights","covers":2,"t":2400}
+//@ {"p":"C15","tier":"experimental","why_experimental":"still in symex after 2400 s: the recursion over boxed children does not get through even without into_vec","clause":"SpanningTree::insert into an arbitrary valid 2-leaf queue never panics (every split point handed to the children lies inside the child it is handed to) and the resulting tree spans exactly the hull of the queue and the inserted range","bounds":"2-leaf tree with symbolic split and priorities, inserted range symbolic; u32 heights","covers":2,"t":2400}
 #[kani::proof]
 #[kani::unwind(7)]
 fn c15_tree_insert_2leaf_span() {
